@@ -106,8 +106,12 @@ def run(ck):
             # every path from entry to this onDone() passes a reset/close
             reached = []
 
-            def step(st, ev):
-                if is_clean(ev):
+            # (after a time-out the response may still be on its way: resetting the parser *now* does not help, what arrives later is
+            # parsed into the next exchange -- only closing the connection makes the hand-back clean)
+            only_close = name == "handleTimeout"
+
+            def step(st, ev, only_close=only_close):
+                if is_clean(ev) and not (only_close and is_reset(ev)):
                     return None
                 if ev is e:
                     reached.append(ev)
